@@ -133,6 +133,10 @@ def check_ret(m, vesc, feh, vdisp, sn):
     fb = float(f(m))
     if not (0.0 <= fb <= 1.0):
         return {"clause": "fallback fraction in [0,1]", "observed": repr(fb)}
+    # outside the tabulated remnant masses the fallback is the routine's stated convention: none below the lightest, complete above the heaviest
+    if (m > x[-1] and fb != 1.0) or (m < x[0] and fb != 0.0):
+        return {"clause": "fallback is complete above the heaviest tabulated remnant and absent below the lightest", "observed": repr(fb),
+                "table_range": [repr(float(x[0])), repr(float(x[-1]))]}
     with np.errstate(all="ignore"):
         r = float(kicks._maxwellian_retention_frac(m, vesc, feh, vdisp, SNe_method=sn))
     if not (0.0 <= r <= 1.0 + 1e-12):
